@@ -1566,3 +1566,118 @@ def m_trim_matches(m, callee, a):
     if key in ('trim_matches', 'trim_end_matches'):
         while j > i and t(cs[j - 1]): j -= 1
     return StrRef(RStr(cs[i:j]))
+
+
+@model('Vec::resize')
+def m_vec_resize(m, c, a):
+    v = deref(a[0]); n = m.concretize(a[1])
+    if n <= len(v.items): del v.items[n:]
+    else: v.items.extend(Cell(deep_clone(m, a[2])) for _ in range(n - len(v.items)))
+    return UNIT
+
+
+@model('Vec::resize_with')
+def m_vec_resize_with(m, c, a):
+    v = deref(a[0]); n = m.concretize(a[1])
+    if n <= len(v.items): del v.items[n:]
+    else: v.items.extend(Cell(call_closure(m, a[2], [])) for _ in range(n - len(v.items)))
+    return UNIT
+
+
+@model('Vec::capacity')
+def m_vec_capacity(m, c, a): return len(deref(a[0]).items)
+
+
+@model('Vec::reserve', 'Vec::shrink_to_fit', 'String::reserve', 'String::shrink_to_fit')
+def m_noop_unit(m, c, a): return UNIT
+
+
+@model('Vec::split_off')
+def m_vec_split_off(m, c, a):
+    v = deref(a[0]); n = m.concretize(a[1])
+    if n > len(v.items): raise RustPanic('`at` split index (is %d) should be <= len (is %d)' % (n, len(v.items)))
+    rest = v.items[n:]; del v.items[n:]
+    return VecV(rest)
+
+
+@model('Vec::drain')
+def m_vec_drain(m, c, a):
+    v = deref(a[0]); r = a[1]
+    n = len(v.items)
+    lo, hi = 0, n
+    if isinstance(r, Agg):
+        if r.ty == 'Range': lo, hi = m.concretize(r.fields[0].v), m.concretize(r.fields[1].v)
+        elif r.ty == 'RangeFrom': lo = m.concretize(r.fields[0].v)
+        elif r.ty == 'RangeTo': hi = m.concretize(r.fields[0].v)
+    if lo > hi or hi > n: raise RustPanic('drain range out of bounds')
+    out = v.items[lo:hi]; del v.items[lo:hi]
+    return IterV('own', out)
+
+
+@model('Vec::retain')
+def m_vec_retain(m, c, a):
+    v = deref(a[0])
+    v.items[:] = [x for x in v.items if m.branch(call_closure(m, a[1], [Ptr(x)]))]
+    return UNIT
+
+
+@model('Vec::dedup')
+def m_vec_dedup(m, c, a):
+    v = deref(a[0]); out = []
+    for x in v.items:
+        if out and values_eq(m, out[-1].v, x.v): continue
+        out.append(x)
+    v.items[:] = out
+    return UNIT
+
+
+@model('[]::iter_mut', 'Vec::iter_mut')
+def m_iter_mut(m, c, a):
+    v = a[0] if isinstance(a[0], SliceRef) else deref(a[0])
+    return IterV('ref', list(seq_cells(v)))
+
+
+@model('[]::concat', '[]::join')
+def m_slice_join(m, callee, a):
+    v = a[0] if isinstance(a[0], SliceRef) else deref(a[0])
+    sep = as_rstr(a[1]).chars if len(a) > 1 else []
+    out = []
+    for i, x in enumerate(seq_cells(v)):
+        if i: out.extend(sep)
+        out.extend(as_rstr(x.v).chars)
+    return RStr(out)
+
+
+@model('HashMap::clear')
+def m_map_clear(m, c, a): deref(a[0]).e[:] = []; return UNIT
+
+
+@model('HashMap::contains_key')
+def m_map_contains(m, c, a): return map_find(m, deref(a[0]), a[1]) >= 0
+
+
+@model('HashMap::remove')
+def m_map_remove(m, c, a):
+    mp = deref(a[0]); i = map_find(m, mp, a[1])
+    if i < 0: return none()
+    return some(mp.e.pop(i)[1].v)
+
+
+@model('HashMap::len')
+def m_map_len(m, c, a): return len(deref(a[0]).e)
+
+
+@model('HashMap::is_empty')
+def m_map_is_empty(m, c, a): return len(deref(a[0]).e) == 0
+
+
+@model('HashMap::with_capacity')
+def m_map_wc(m, c, a): return MapV()
+
+
+@model('HashMap::keys')
+def m_map_keys(m, c, a): return IterV('own', [Cell(Ptr(Cell(k))) for k, _ in deref(a[0]).e])
+
+
+@model('HashMap::values')
+def m_map_values(m, c, a): return IterV('own', [Cell(Ptr(cell)) for _, cell in deref(a[0]).e])
